@@ -76,7 +76,9 @@ func (d damage) String() string {
 func TestC16Damage(t *testing.T) {
 	rapid.Check(t, func(rt *rapid.T) {
 		cfg := baseConfig()
-		cfg.AtLeastOnceMax, cfg.ExactlyOnceMax = 16, 16
+		// (small limits: the queues are full when the process stops)
+		cfg.AtLeastOnceMax = rapid.SampledFrom([]int{16, 16, 2, 3, 4}).Draw(rt, "AtLeastOnceMax")
+		cfg.ExactlyOnceMax = rapid.SampledFrom([]int{16, 16, 2, 3, 4}).Draw(rt, "ExactlyOnceMax")
 		h0 := runGen0(rt, "C16", cfg, []byte{1, 2}, func(h *H, actions map[string]func(*rapid.T)) {
 			// build up pending transfers at both stages
 			actions["pub1c"] = actions["pub1"]
@@ -171,7 +173,12 @@ func TestC16Damage(t *testing.T) {
 					stray[key] = []byte{}
 				}
 			}
-			n, _ := h0.restart(restartOpts{K: k, Late: rapid.Bool().Draw(rt, "late"), Config: cfg, Mutate: func(store map[uint][]byte) {
+			// the Persistence may also refuse to delete what AdoptSession finds unusable
+			var adoptFaults []byte
+			if rapid.IntRange(0, 7).Draw(rt, "deleteFailsDuringAdoption") == 0 {
+				adoptFaults = []byte{'D'}
+			}
+			n, _ := h0.restart(restartOpts{K: k, Late: rapid.Bool().Draw(rt, "late"), Config: cfg, AdoptFailNext: adoptFaults, Mutate: func(store map[uint][]byte) {
 				for _, d := range dmg {
 					v := store[d.Key]
 					switch d.Kind {
@@ -199,7 +206,24 @@ func TestC16Damage(t *testing.T) {
 				nontrivial = true
 			}
 
+			for key, kind := range damaged {
+				_, before := snapshot[key&0xc000|(key-1)&0x3fff]
+				_, after := snapshot[key&0xc000|(key+1)&0x3fff]
+				if before && after && key >= 0x8000 && key <= 0xffff {
+					n.label("damage-in-the-middle-of-a-queue:" + map[bool]string{true: "removed", false: "unusable"}[kind == "remove"])
+				}
+			}
 			// 1. neither panic nor fatal
+			if n.AdoptPanic != "" {
+				n.Failf("AdoptSession panicked on a damaged Persistence (damage %v, failing Persistence operations %q): %s", ds, adoptFaults, n.AdoptPanic)
+			}
+			if len(adoptFaults) != 0 {
+				// (an error of the Persistence itself is not damage: what becomes
+				// of the session then is not judged here, a panic is)
+				h0.labels["delete-fails-during-adoption"] = true
+				n.Shutdown(5 * time.Second)
+				continue
+			}
 			if n.Fatal != nil {
 				n.Failf("AdoptSession failed on a damaged Persistence: %v", n.Fatal)
 			}
@@ -318,6 +342,56 @@ func TestC16Damage(t *testing.T) {
 				n.label("inbound-marker-damaged")
 			}
 			noPanics(n)
+			// 8. not permanently: the session goes on, fills its queues, the
+			// process stops again and the next adoption (no new damage) works
+			if rapid.Bool().Draw(rt, "secondLife") {
+				n.SetAutoAck(false) // (the broker's acknowledgements do not make it before the stop)
+				for _, level := range []byte{1, 2} {
+					for i := 0; i < 5; i++ {
+						c := n.pub(level, false)
+						n.MustPoll("publish returning", func() bool { return n.IsDone(c) })
+						if c.Err != nil {
+							break
+						}
+					}
+				}
+				n.Shutdown(5 * time.Second)
+				n2, pend2 := n.restart(restartOpts{K: n.Store.NOps(), Late: true, Config: cfg})
+				n2.Act("second life after damage %v", ds)
+				leftovers, n1, n2q := 0, 0, 0
+				for _, p := range pend2 {
+					if p.ID&0x4000 == 0 {
+						n1++
+					} else {
+						n2q++
+					}
+				}
+				// (whatever was resumed has been completed by now: an outbound
+				// record of the first life which is still there was abandoned)
+				for key, v := range n.Store.Content() {
+					if old, ok := snapshot[key]; ok && key >= 0x8000 && key <= 0xffff && string(old) == string(v) {
+						leftovers++
+					}
+				}
+				if leftovers > 0 {
+					n.label("second-life-with-abandoned-records-left-in-the-store")
+					if n1 >= cfg.AtLeastOnceMax || n2q >= cfg.ExactlyOnceMax {
+						n.label("second-life-with-abandoned-records-and-a-full-queue")
+					}
+				}
+				if n2.Fatal != nil {
+					n2.Failf("the adoption after next (no new damage; earlier damage %v, %d transfers pending) fails: %v", ds, len(pend2), n2.Fatal)
+				}
+				n2.Act("appStep")
+				n2.appStep("first connect of the second life")
+				if last, ok := n2.App.Last(); ok && !n2.App.InCall() && last.Err != nil {
+					n2.Failf("second life after damage %v: the first ReadSlices fails in a healthy environment: %v (warnings: %v)", ds, last.Err, n2.Warn)
+				}
+				n2.drain(func() bool { return n2.allPersistedDone() })
+				noPanics(n2)
+				n2.Shutdown(5 * time.Second)
+				n.label("second-life-after-damage")
+			}
 			n.Shutdown(5 * time.Second)
 			for k := range n.labels {
 				h0.labels[k] = true
